@@ -20,6 +20,7 @@ import asyncio
 import builtins
 import json
 import math
+import sys
 
 from vkit.core import Sub, Violation, given_run
 from vkit.gen import g1
@@ -719,6 +720,92 @@ def _resolver_exc():
     return fn
 
 
+def _atheris(seconds):
+    """Coverage-guided tier: one libFuzzer process per shard on fuzz/c01_target.py (oracle inside the target).
+    Even shards fuzz the five parse entry points, odd shards the whole request pipeline; every other pair
+    starts from an empty corpus, the others from a few valid documents of the repository's fixtures."""
+    def fn(ctx, shard, nshards):
+        import glob
+        import os
+        import shutil
+        import subprocess
+        import tempfile
+
+        from vkit.core import HERE, derive_seed
+
+        try:
+            import atheris  # noqa: F401
+        except Exception:  # noqa: BLE001
+            ctx.notes["atheris"] = "not installed (MANIFEST.setup_cmd installs it); sub-check skipped"
+            return
+        mode = "parse" if shard % 2 == 0 else "request"
+        seeded = (shard // 2) % 2 == 1
+        work = tempfile.mkdtemp(prefix="vkit-fuzz-", dir="/var/tmp")
+        try:
+            corpus = os.path.join(work, "corpus")
+            crashes = os.path.join(work, "crash")
+            os.makedirs(corpus)
+            os.makedirs(crashes)
+            if seeded:
+                srcs = ["{a}", "query Q($v:Int=1){a(x:$v)@skip(if:true)...F}fragment F on T{b}", "mutation{m}",
+                        'type T implements I&J @d(a:[1,"x",{k:null}]){f(a:Int=1):[T!]!}', '"""d"""scalar S',
+                        "extend schema @a{query:Q}", "directive @d(a:Int) repeatable on FIELD|QUERY"]
+                for name in ("kitchen_sink.graphql", "schema_kitchen_sink.graphql"):
+                    try:
+                        txt = open(os.path.join("/repo/tests/fixtures", name), encoding="utf-8").read()
+                        srcs += [txt[i:i + 240] for i in range(0, min(len(txt), 2400), 240)]
+                    except OSError:
+                        pass
+                for i, t in enumerate(srcs):
+                    with open(os.path.join(corpus, f"seed{i}"), "wb") as f:
+                        f.write(bytes([i % 32]) + t.encode("utf-8"))
+            stats = os.path.join(work, "stats.json")
+            seed = derive_seed(ctx.seed, "atheris", shard) % (2 ** 31 - 2) + 1
+            env = dict(os.environ, PYTHONPATH=os.environ.get("PYTHONPATH", ""))
+            cmd = [sys.executable, os.path.join(HERE, "fuzz", "c01_target.py"), stats, mode,
+                   f"-max_total_time={seconds}", f"-seed={seed}", "-max_len=300", "-timeout=20",
+                   f"-artifact_prefix={crashes}/", "-rss_limit_mb=4096", corpus]
+            try:
+                p = subprocess.run(cmd, capture_output=True, text=True, env=env, timeout=seconds + 120)
+                tail = (p.stderr or "")[-1500:]
+            except subprocess.TimeoutExpired:
+                tail = "timeout"
+            try:
+                st = json.load(open(stats))
+            except Exception:  # noqa: BLE001
+                st = {"execs": 0, "nontrivial": 0}
+            ctx.count(st.get("execs", 0))
+            ctx.cls(f"atheris:{mode}:{'seeded' if seeded else 'empty'}-corpus")
+            ctx.notes[f"atheris_shard{shard}"] = {"mode": mode, "seeded_corpus": seeded, "execs": st.get("execs", 0),
+                                                  "nontrivial": st.get("nontrivial", 0),
+                                                  "corpus_files": len(os.listdir(corpus))}
+            # the corpus libFuzzer keeps = inputs that reached new coverage: they are the non-trivial samples
+            for path in sorted(glob.glob(os.path.join(corpus, "*")))[:4000]:
+                data = open(path, "rb").read()
+                if len(data) > 1:
+                    ctx.nontriv(data.hex(), f"atheris:{mode}")
+            vs = []
+            for path in sorted(glob.glob(os.path.join(crashes, "*"))):
+                data = open(path, "rb").read()
+                opts, text = (data[0] & 31, data[1:].decode("utf-8", "replace")) if data else (0, "")
+                if mode == "parse":
+                    got = eval_parse(text, opts)[0]
+                else:
+                    got = eval_request(opts % len(schemas()), text, {}, None, False)[0]
+                if got:
+                    vs += got
+                elif os.path.basename(path).startswith(("timeout", "oom")):
+                    ctx.notes.setdefault("atheris_slow_inputs", []).append(repr(text[:80]))
+                else:
+                    ctx.notes.setdefault("atheris_unreproduced", []).append({"file": os.path.basename(path),
+                                                                             "stderr": tail[-300:]})
+            ctx.report(vs)
+        finally:
+            shutil.rmtree(work, ignore_errors=True)
+
+    return fn
+
+
 def subchecks(tier):
     if tier == "quick":
         return [Sub("parse_total", _parse_total(500), shards=8, weight=3),
@@ -728,7 +815,8 @@ def subchecks(tier):
     return [Sub("parse_total", _parse_total(6000), shards=16, weight=3),
             Sub("pipeline", _pipeline(40000), shards=16, weight=2),
             Sub("resolver_exc", _resolver_exc(), shards=8, weight=1, exhaustive=True),
-            Sub("escapes", _escapes(4), shards=16, weight=2, exhaustive=True)]
+            Sub("escapes", _escapes(4), shards=16, weight=2, exhaustive=True),
+            Sub("atheris", _atheris(300), shards=12, weight=1)]
 
 
 def replay(case):
